@@ -144,6 +144,14 @@ class Nodes(_Nodes):
             # add tester
             init, trans = _make_tester_for_previous(
                 var_prev, var, context, strong)
+            old = testers.get(var_prev)
+            if old is not None and old['init'] != init:
+                # weak and strong "previous" of the same variable
+                # differ initially, so need separate testers
+                suffix = 'strong' if strong else 'weak'
+                var_prev = f'{var}_prev{previous}_{suffix}'
+                init, trans = _make_tester_for_previous(
+                    var_prev, var, context, strong)
             testers[var_prev] = dict(
                 type='bool',  # previous applies only to bool vars
                 init=init, trans=trans, win=None)
